@@ -112,6 +112,7 @@ class Seams:
         self.total = 0
         self.lines = 0
         self.fired = None  # descriptor of the fault that actually fired
+        self.observed = {}
         self.count_lines = count_lines or (arm is not None and arm.get("kind") == "async-crash")
         self._saved = []
         self._old_trace = None
@@ -122,6 +123,10 @@ class Seams:
 
         def shim(*a, **k):
             seams.total += 1
+            if site == "geom.get_clusters" and a and getattr(a[0], "shape", (1,))[0] == 0:
+                # rare state: a cluster was emptied before cleaning (all of its atoms
+                # were awarded to other clusters by overlap resolution)
+                seams.observed["empty_matrix_to_dbscan"] = seams.observed.get("empty_matrix_to_dbscan", 0) + 1
             c = seams.counts.get(site, 0) + 1
             seams.counts[site] = c
             if seams.budget is not None and seams.total > seams.budget:
